@@ -111,7 +111,51 @@ def gen_case(rng, i=0):
         case["args"] = rng.choice([{"start_frame": rng.randrange(0, F)}, {"end_frame": rng.randrange(0, F + 2)},
                                    {"start_frame": 1, "end_frame": max(1, F - 1)} if F > 1 else {"end_frame": 1}])
     case["ops"] = gen_ops(rng, case)
+    if case["args"] is None and F * P * T * D > 0 and rng.random() < 0.3:
+        case["pre"] = gen_pre(rng, case)
     return case
+
+
+def gen_pre(rng, case):
+    """Two-step cases.  The case's content is what a selection leaves of a LARGER file: the implementation reads the larger file and
+    selects (get_points / select_frames / a stepped slice, all inside the common argument domain), then runs the operations on the
+    result; model and reference start from the file of the case's own content.  A selection returns views and re-ordered arrays,
+    and no later operation may depend on that."""
+    F, P, T, D = case["shape"]
+    data = np.array(case["data"], dtype=np.uint32).reshape(F, P, T, D)
+    conf = np.array(case["conf"], dtype=np.uint32).reshape(F, P, T)
+    kind = rng.choice(["get_points", "get_points", "select_frames", "getitem_slice"])
+    def junk(shape):
+        j = np.array([rng.choice([0, 0x3F800000, 0x7FC00000, 0x40400000, rng.getrandbits(32)]) for _ in range(int(np.prod(shape)))],
+                     dtype=np.uint32).reshape(shape)
+        return np.where((j & 0x7F800000 == 0) & (j & 0x007FFFFF != 0), j | 0x00800000, j)         # no subnormal words in the junk
+    if kind == "get_points":
+        T2 = T + rng.randrange(1, 4)
+        idx = rng.sample(range(T2), T)
+        d2, c2 = junk((F, P, T2, D)), junk((F, P, T2))
+        d2[:, :, idx] = data
+        c2[:, :, idx] = conf
+        arg = [idx]
+    elif kind == "select_frames":
+        F2 = F + rng.randrange(1, 4)
+        idx = rng.sample(range(F2), F)
+        d2, c2 = junk((F2, P, T, D)), junk((F2, P, T))
+        d2[idx] = data
+        c2[idx] = conf
+        arg = [idx]
+    else:
+        step, start = rng.choice([2, 3]), rng.randrange(0, 2)
+        F2 = start + (F - 1) * step + 1 + rng.randrange(0, step)
+        stop = rng.choice([None, F2 + 2])
+        d2, c2 = junk((F2, P, T, D)), junk((F2, P, T))
+        d2[start::step] = data
+        c2[start::step] = conf
+        arg = [start, stop, step]
+        T2 = T
+    T2 = d2.shape[2]
+    comps = [{"name": "c0", "format": "XYZW"[:D] + "C", "points": ["p%d" % j for j in range(T2)], "limbs": [], "colors": []}]
+    return {"op": [kind] + arg, "src": {"comps": comps, "shape": [int(x) for x in d2.shape], "data": [int(x) for x in d2.reshape(-1)],
+                                       "conf": [int(x) for x in c2.reshape(-1)]}}
 
 
 def gen_index_list(rng, n, edge):
@@ -320,7 +364,7 @@ class C08(common.Prop):
               ("nan" if any((w & 0x7FFFFFFF) > 0x7F800000 for w in cw) else "") + ("z" if any((w & 0x7FFFFFFF) == 0 for w in cw) else "")
         if case.get("enum"):
             return ("enum", case["enum"], len(case["ops"]))
-        return ("D%d" % D, "empty" if F * P * T == 0 else "full", (cls or "pos") + ("+subn" if case_edge(case) else ""), "win" if case.get("args") else "all",
+        return ("D%d" % D, "empty" if F * P * T == 0 else "full", (cls or "pos") + ("+subn" if case_edge(case) else ""), "win" if case.get("args") else ("after-" + case["pre"]["op"][0] if case.get("pre") else "all"),
                 ",".join(sorted({o[0][:6] + ("!" + op_edge(case, o)[:5] if op_edge(case, o) else "") for o in case["ops"]}))[:60])
 
     def nontrivial(self, case):
@@ -354,7 +398,8 @@ class C08(common.Prop):
     def run_impl(self, case):
         from pose_format import Pose
         from pose_format.pose_header import PoseHeaderCache
-        data = encode_file(case)
+        pre = case.get("pre")
+        data = encode_file(dict(case, **pre["src"])) if pre else encode_file(case)
         args = {k: v for k, v in (case.get("args") or {}).items() if v is not None}
         out = {"read": [], "conv": [], "ops": [[None] * 3 for _ in case["ops"]]}
         bodies = []
@@ -362,6 +407,10 @@ class C08(common.Prop):
             PoseHeaderCache.clear_cache()
             try:
                 b = Pose.read(data, pose_body=self.classes[kind], **args).body
+                if pre:
+                    po = pre["op"]
+                    b = b.get_points(list(po[1])) if po[0] == "get_points" else \
+                        b.select_frames(list(po[1])) if po[0] == "select_frames" else b[slice(po[1], po[2], po[3])]
                 out["read"].append(["ok", dump_body(b, kind)])
                 bodies.append(b)
             except Exception as e:
